@@ -1,7 +1,7 @@
 from common import T_COMMON
 
 CFG = dict(
-    theorems=[],
+    theorems=["readObj_ranges_sum", "obj_resave_faces", "obj_shared_offset_breaks"],
     streams=[dict(name="c05", n=dict(quick=300, thorough=10000))],
     trusted=T_COMMON + [
         "text layer: the driver's lexer (bufio.ScanLines, strings.Fields, strconv.Atoi/ParseFloat(…,32), parseObjFaceComponent) and printer (strconv 'f' -1 for dyadic values) are hand transcriptions, tied text-exactly by the c05.write / c05.read correspondence; they are not the subject of the theorems",
